@@ -4,15 +4,14 @@
  "file": "driver.c", "function": "buildobj", "also_functions": ["succeeded", "changeext"],
  "properties": {"C18": "contract", "C19": "safety"},
  "mode": "dfcc", "enforce": "buildobj/buildobj_contract",
- "replace_calls": {"spawnphase": "rec_spawnphase"},
+ "replace_calls": {"spawnphase": "rec_spawnphase", "fatal": "osm_oom"},
  "kind": "proof-const-unwind", "unwind": 8, "unwindset": ["strlen.0:20", "strcpy.0:20"],
  "noreturn_macros": false, "stubs": ["os_model.c"], "link_repo": ["util.c"],
- "cbmc_flags": ["--no-malloc-may-fail"],
  "timeout": 200,
  "expects": ["postcondition", "assertion_verif", "assigns"],
  "assumes": ["OS model stubs/os_model.c: a child is reported by wait() exactly once, wait() does not block forever and fails only when no child is left",
              "spawnphase() is replaced by rec_spawnphase(): either fails with any errno leaving nothing behind, or starts one child for that stage (osm_stage_start); unit DRV.spawnphase proves the real spawnphase has exactly these two outcomes",
-             "memory allocation in the driver does not fail (--no-malloc-may-fail): util.c fatal() on OOM exits 1 without cleanup, outside C18's fault model",
+             "util.c's fatal() (reached only when malloc/realloc fail inside xmalloc/arrayadd) ends the path: OOM in the driver exits 1 without cleanup, outside C18's fault model",
              "no earlier temporary exists (first input); the multi-input case is unit DRV.buildobj.prevtmp",
              "at most one unrelated child is reported by wait()"]
 }
@@ -115,7 +114,7 @@ void
 osm_at_exit(int status)
 {
 	__CPROVER_assert(status == 1, "EXIT status is 1");
-	__CPROVER_assert(osm.nfail > 0 || osm_tape.mkstemp_err != 0, "EXIT only if some stage failed (spawn failure, non-zero exit, signal) or mkstemp failed");
+	__CPROVER_assert(osm.nfail > 0 || osm.nattempt == 0, "EXIT only if some stage failed (spawn failure, non-zero exit, signal), or before any stage was started (mkstemp/strdup failure)");
 	__CPROVER_assert(osm_nlive() == 0, "EXIT no child is still live (all reaped)");
 	__CPROVER_assert(osm_term_missing() == 0, "EXIT every stage that was live at the first failure was sent SIGTERM");
 	__CPROVER_assert(osm.badkill == 0, "EXIT kill(SIGTERM) went to live stage pids only");
